@@ -4,8 +4,8 @@
 From stdpp Require Import gmap sorting.
 From Coq Require Import NArith ZArith String.
 From RV Require Import Lib.Hex Lib.SipHash Gen.KeyTable.
-Local Open Scope N_scope.
 Local Open Scope string_scope.
+Local Open Scope N_scope.
 
 Notation key := (list N) (only parsing).
 
